@@ -17,7 +17,7 @@ Not decided: byte-exact round trip over all (write size, read buffer, chunking) 
 """
 import re
 from paths import refine_cuts
-from common import short, slice_locals, ref_local
+from common import short, slice_locals, ref_local, positive
 import guards
 import refsrc
 import k11
@@ -363,11 +363,41 @@ def r02_4(ctx, fx):
                detail="inner polls %d, waker uses %d, Pending exits %d; unguarded: %s%s" % (npolls, nwakers, npend, [fn.path_sites(p) for _, p in bad], note))
 
 
+def r02_5(ctx, fx):
+    """"for every buffering configuration": the two configured factors (`max_read_ahead_factor`, `max_write_buffer_size`, plain
+    `usize`s of the public transport configs, 0 is representable) size the read window and the encrypt buffer by multiplication in
+    NoiseSocket::new. With a factor of 0 the encrypt buffer is empty - poll_write parks in `Pending` without a waker, nothing is
+    delivered and nothing fails - and the read window is 0 (spurious EOF). Every product in `new` that has a configured factor as
+    operand takes a provably positive one (`max(.., 1)`). This replaces the former assumption of R02.4 by an obligation."""
+    fn = ctx.fn(fx, N + "NoiseSocket::<S>::new", "R02.5")
+    if fn is None:
+        return
+    n = 0
+    seen = {}
+    for node, st in fn.assigns():
+        rv = st["rv"]
+        if rv["r"] != "bin" or not rv["op"].startswith("Mul"):
+            continue
+        for side in ("a", "b"):
+            o = rv[side]
+            rs = guards.rootstrs(fn, o)
+            ps = sorted(x for x in rs if x in ("param:_3", "param:_4"))
+            if not ps:
+                continue
+            n += 1
+            which = "+".join("read_ahead_factor" if x == "param:_3" else "write_buffer_size" for x in ps)
+            k = seen.get(which, 0)
+            seen[which] = k + 1
+            ctx.ob("R02.5", "NoiseSocket::new/product#%d-of-%s-takes-a-positive-factor" % (k, which), positive(fn, fx, o), site=fn.site(node), cfg=fx.cfg,
+                   detail="a configured factor of 0 gives an empty buffer / window: writes hang in Pending without a waker")
+    ctx.anchor("R02.5", "NoiseSocket::new: products with a configured factor", n, 4, cfg=fx.cfg)
+
+
 def run(ctx):
     fx = ctx.facts("default")
     r02_1(ctx, fx)
     r02_2(ctx, fx)
     r02_3(ctx, fx)
     r02_4(ctx, fx)
+    r02_5(ctx, fx)
     ctx.assume("snow's AEAD rejects altered ciphertext (read_message returns Err) and its constants.rs is the source built")
-    ctx.assume("the configured noise_write_buffer_size is >= 1 (the Pending exit of poll_write relies on it, see DESIGN R02.4)")
